@@ -175,6 +175,21 @@ fn check_tape(tape: &[u8], gates: &Gates, stats: &mut Stats, counting: bool) -> 
             }
         }
     }
+    // byte sequences that look like a byte-order mark, as the FIRST non-ASCII text of the file
+    // but not at its start (U+FEFF itself; the Windows-1252 characters whose bytes are FE FF,
+    // FF FE or EF BB BF): a mark counts only at offset 0
+    if choice.ratio(1, 8) {
+        let x = *choice.pick(&["\u{feff}", "\u{fe}\u{ff}", "\u{ff}\u{fe}", "\u{ef}\u{bb}\u{bf}", "\u{fffe}", "\u{ff}", "\u{fe}"]);
+        let lead = if crlf { "\r\n" } else { "\n" };
+        text = match choice.below(3) {
+            0 => format!("(* {} *){}{}", x, lead, text),
+            1 => format!("(*{}*) {}", x, text),
+            _ => format!("{}(* a{}b *) {}", lead, x, text),
+        };
+        if counting {
+            stats.class("text.bom-like-sequence-first-non-ascii");
+        }
+    }
     // a file larger than any read / decode block (4 KiB ... 64 KiB and beyond), with two-byte
     // characters so dense that every block boundary of the UTF-8 form has an even chance to fall
     // inside one; a few ASCII bytes in front shift the phase
